@@ -96,8 +96,24 @@ class Methods:
             if isinstance(v, SV) and v.ty == "int":
                 return [(st, SV(z3.If(v.term >= 0, v.term, -v.term), "int"))]
         if name == "print":
-            st.log.append(("print", tuple(args)))
+            # stdout is the heap list with the reserved id 0: one entry per print call (the printed object)
+            if 0 not in st.heap:
+                st.heap[0] = ListObj(items=())
+            if kwargs or len(args) != 1:
+                raise Unsupported("print with several arguments / keywords")
+            return self.call_method(st, fr, Ref(0), "append", [self.to_str(st, args[0])], {})
+        if name.startswith("logging."):
+            st.log.append(("call", name, tuple(args), tuple(sorted(kwargs.items(), key=lambda kv: kv[0]))))
             return [(st, None)]
+        if name == "clingo.parse_files":
+            # parse_files(files, callback, ...): the callback receives the parsed statements in order;
+            # supported callback: <list>.append  ->  the list is extended by an arbitrary sequence of statements
+            cb = args[1] if len(args) > 1 else kwargs.get("callback")
+            if isinstance(cb, Builtin) and cb.name == "method:append" and isinstance(cb.bound_self, Ref):
+                parsed = ex.fresh(st, "parsed", ("list", "ast"))
+                st.log.append(("call", name, tuple(args[:1]), ()))
+                return ex.bind(self.call_method(st, fr, cb.bound_self, "extend", [parsed], {}), lambda s, _v: [(s, None)])
+            raise Unsupported("parse_files callback")
         if name == "setattr":
             return self.setattr_dyn(st, args[0], args[1], args[2])
         if name == "range":
